@@ -26,7 +26,19 @@ Definition OrdH (H : heap) : Prop :=
   (forall z w, c_atomic (gcmd z H) = Some w -> waker_lt w z).
 
 (* the cell of command P still holds w0, or w0 has been woken *)
-Definition Q (P : nat) (w0 : waker) (H : heap) : Prop := c_atomic (gcmd P H) = Some w0 \/ woken_of w0 H.
+(* "w has been woken": the flag of the poll it belongs to is set, or - for the waker of an executor task - the task
+   is in the executor's ready queue *)
+Definition wokenx (w : waker) (H : heap) : Prop :=
+  match w with WCmd _ _ g => getd false g (woken H) = true | WExec q => In q (xready H) end.
+Definition Rwx (H H' : heap) : Prop := Rwoken H H' /\ incl (xready H) (xready H').
+Lemma Rwx_refl H : Rwx H H. Proof. split; [apply Rwoken_refl | apply incl_refl]. Qed.
+Lemma Rwx_trans a b c : Rwx a b -> Rwx b c -> Rwx a c.
+Proof. intros (A1 & A2) (B1 & B2). split; [eapply Rwoken_trans; eassumption | eapply incl_tran; eassumption]. Qed.
+Lemma Rwx_same H H' : woken H' = woken H -> xready H' = xready H -> Rwx H H'.
+Proof. intros E1 E2. split; [apply Rwoken_same; exact E1 | rewrite E2; apply incl_refl]. Qed.
+Lemma wokenx_woken_of w H : wokenx w H -> woken_of w H.
+Proof. destruct w; [intros X; exact X | intros _; exact I]. Qed.
+Definition Q (P : nat) (w0 : waker) (H : heap) : Prop := c_atomic (gcmd P H) = Some w0 \/ wokenx w0 H.
 
 (* what a step may do: keep the order invariant, keep Q, never shrink the command table *)
 Definition St (P : nat) (w0 : waker) (H H' : heap) : Prop :=
@@ -41,18 +53,18 @@ Section Steps.
   Lemma St_trans a b c : St a b -> St b c -> St a c.
   Proof. intros (A1 & A2 & A3) (B1 & B2 & B3). split; [auto | split; [auto | lia]]. Qed.
 
-  Lemma woken_of_mono H H' : Rwoken H H' -> woken_of w0 H -> woken_of w0 H'.
-  Proof. intros R. unfold woken_of. destruct w0; auto. Qed.
+  Lemma woken_of_mono H H' : Rwx H H' -> wokenx w0 H -> wokenx w0 H'.
+  Proof. intros (R & I). unfold wokenx. destruct w0; [apply R | apply I]. Qed.
   (* steps that leave the command table alone and only ever set woken flags *)
-  Lemma St_cmds_same H H' : cmds H' = cmds H -> Rwoken H H' -> St H H'.
+  Lemma St_cmds_same H H' : cmds H' = cmds H -> Rwx H H' -> St H H'.
   Proof.
     intros E R. split; [|split].
     - unfold OrdH, gcmd. rewrite E. auto.
     - intros [A|W]; [left; unfold gcmd in *; rewrite E; exact A | right; eapply woken_of_mono; eauto].
     - rewrite E. lia.
   Qed.
-  Lemma St_same H H' : cmds H' = cmds H -> woken H' = woken H -> St H H'.
-  Proof. intros E1 E2. apply St_cmds_same; [exact E1 | apply Rwoken_same; exact E2]. Qed.
+  Lemma St_same H H' : cmds H' = cmds H -> woken H' = woken H -> xready H' = xready H -> St H H'.
+  Proof. intros E1 E2 E3. apply St_cmds_same; [exact E1 | apply Rwx_same; assumption]. Qed.
 
   (* an update of one command that keeps its cell and adds no task that breaks the order *)
   Lemma St_ucmd c f H :
@@ -107,21 +119,37 @@ Section Steps.
                  (fun n H => Rwoken_same H (note n H) eq_refl) Rwoken_set (fun q H => Rwoken_same H (push_xready q H) eq_refl)). }
       apply R, E.
   Qed.
-  Lemma wake_woken_of f H : woken_of w0 (wake f w0 H).
-  Proof. unfold woken_of. destruct w0 as [c s g|q]; [apply wake_sets_woken_any | exact I]. Qed.
+  Lemma wake_exec f q H : wake f (WExec q) H = push_xready q H.
+  Proof. destruct f; reflexivity. Qed.
+  Lemma wake_woken_of f H : wokenx w0 (wake f w0 H).
+  Proof.
+    unfold wokenx. destruct w0 as [c s g|q]; [apply wake_sets_woken_any|].
+    rewrite wake_exec. unfold push_xready; cbn [xready]. apply in_or_app. right. left. reflexivity.
+  Qed.
   Lemma Rwoken_wake f w H : Rwoken H (wake f w H).
   Proof.
     apply (R_wake Rwoken Rwoken_refl Rwoken_trans (fun c f H _ => Rwoken_same H (ucmd c f H) eq_refl)
              (fun n H => Rwoken_same H (note n H) eq_refl) Rwoken_set (fun q H => Rwoken_same H (push_xready q H) eq_refl)).
   Qed.
 
+  Lemma incl_xready_wake f w H : incl (xready H) (xready (wake f w H)).
+  Proof.
+    assert (X : Perm.Rxready H (wake f w H)).
+    { apply (R_wake Perm.Rxready Perm.Rxready_refl Perm.Rxready_trans (fun c f H _ => Perm.Rxready_same H (ucmd c f H) eq_refl)
+               (fun n H => Perm.Rxready_same H (note n H) eq_refl) (fun g H => Perm.Rxready_same H (set_woken g H) eq_refl)).
+      intros q H0. exists [q]. reflexivity. }
+    destruct X as [l E]. rewrite E. apply incl_appl, incl_refl.
+  Qed.
+  Lemma Rwx_wake f w H : Rwx H (wake f w H).
+  Proof. split; [apply Rwoken_wake | apply incl_xready_wake]. Qed.
+
   Lemma wake_St : forall fuel w H, St H (wake fuel w H).
   Proof.
     induction fuel as [|f IH]; intros w H; unfold wake; fold wake;
-      (destruct w as [c s g|q]; [|apply St_same; reflexivity]);
+      (destruct w as [c s g|q]; [|apply St_cmds_same; [reflexivity | split; [apply Rwoken_same; reflexivity | unfold push_xready; cbn [xready]; apply incl_appl, incl_refl]]]);
       set (H1 := if c_alive (gcmd c H) then ucmd c (fun cm => set_ready (c_ready cm ++ [s]) cm) H else H);
       (assert (S1 : St H H1) by (subst H1; destruct (c_alive (gcmd c H)); [plain | apply St_refl]));
-      (assert (S2 : St H (set_woken g H1)) by (eapply St_trans; [exact S1 | apply St_cmds_same; [reflexivity | apply Rwoken_set]]));
+      (assert (S2 : St H (set_woken g H1)) by (eapply St_trans; [exact S1 | apply St_cmds_same; [reflexivity | split; [apply Rwoken_set | apply incl_refl]]]));
       destruct (c_atomic (gcmd c (set_woken g H1))) as [w'|] eqn:EA; try (eapply St_trans; [exact S2 | apply St_same; reflexivity]).
     all: try exact S2.
     (* the cell is emptied and its waker woken *)
@@ -142,7 +170,7 @@ Section Steps.
       intros Q0. specialize (Q2 Q0). destruct Q2 as [A|W].
       + (* the cell held w0: it is woken now *)
         rewrite EA in A. inversion A; subst w'. right. apply wake_woken_of.
-      + right. eapply woken_of_mono; [|exact W]. eapply Rwoken_trans; [|apply Rwoken_wake]. apply Rwoken_same; reflexivity.
+      + right. eapply woken_of_mono; [|exact W]. eapply Rwx_trans; [|apply Rwx_wake]. apply Rwx_same; reflexivity.
     - eapply St_trans; [exact S2|]. eapply St_trans; [apply (St_set_atomic c None); [exact Hne | exact I] | apply IH].
   Qed.
 
@@ -236,7 +264,7 @@ Section Steps2.
   Ltac plain := apply St_ucmd_plain; intros cm; destruct cm; reflexivity.
 
   Lemma St_add_gen H : St H (mkH (chans H) (tfl H) (cmds H) (woken H ++ [false]) (xready H) (aborted H) (log H) (hout H)).
-  Proof. apply St_cmds_same; [reflexivity | apply Rwoken_add_gen]. Qed.
+  Proof. apply St_cmds_same; [reflexivity | split; [apply Rwoken_add_gen | apply incl_refl]]. Qed.
   Lemma St_new_chan H ch H1 : new_chan H = (ch, H1) -> St H H1.
   Proof. unfold new_chan. intros E; inversion E; subst. apply St_same; reflexivity. Qed.
   Lemma St_new_tflag H u H1 : new_tflag H = (u, H1) -> St H H1.
@@ -633,7 +661,7 @@ Proof.
     assert (A3 : c_atomic (gcmd x H3) = Some w) by (unfold H3; rewrite gcmd_ucmd_other by lia; exact A).
     unfold w in A3. rewrite (holds_of_atomic x cid slot g H3 A3) in EHo. discriminate.
   - (* it was woken during the poll *)
-    unfold woken_of, w in W. assert (EW' : getd false g (woken H2) = false) by exact EW. rewrite W in EW'. discriminate.
+    unfold wokenx, w in W. assert (EW' : getd false g (woken H2) = false) by exact EW. rewrite W in EW'. discriminate.
 Qed.
 
 (* ---------- the order invariant holds in every state a host can reach ---------- *)
@@ -682,7 +710,7 @@ Proof.
   - destruct (find_rq tg v occ 0 (d_reqs st)) as [i|]; [|inversion E; subst; exact O].
     destruct (rq_dropped _); inversion E; subst; [exact O|]. cbn [d_H].
     apply (St_ord 0 (WExec 0) _ _ (St_drop_req 0 (WExec 0) _ (d_H st)) O).
-  - inversion E; subst; cbn [d_H]. apply (St_ord 0 (WExec 0) _ _ (St_same 0 (WExec 0) (d_H st) (add_aborted name (d_H st)) eq_refl eq_refl) O).
+  - inversion E; subst; cbn [d_H]. apply (St_ord 0 (WExec 0) _ _ (St_same 0 (WExec 0) (d_H st) (add_aborted name (d_H st)) eq_refl eq_refl eq_refl) O).
   - inversion E; subst. exact O.
   - inversion E; subst. exact O.
   - destruct (new_tflag (d_H st)) as [u H1] eqn:E1. inversion E; subst; cbn [d_H].
@@ -734,33 +762,41 @@ Qed.
    holds w or w has been woken - so whatever happens to x later either finds the host subscribed (a wake queues
    the host's task: Chain.wake_queues_task) or the host is queued already.  One layer of "a call runs to
    quiescence and no wake-up is lost between layers". *)
-Theorem poll_next_pending_quiet_and_subscribed : forall fuel x' w H H',
-  OrdH H -> waker_lt w (S x') -> S x' < length (cmds H) -> poll_next (S fuel) (S x') w H = Some (PNPending, H') ->
-  c_evs (gcmd (S x') H') = [] /\ c_eff (gcmd (S x') H') = [] /\
-  (was_aborted (S x') H' = false -> c_ready (gcmd (S x') H') = [] /\ c_spawnq (gcmd (S x') H') = []) /\
-  Q (S x') w H' /\ OrdH H'.
+Theorem poll_next_pending_quiet_and_subscribed_any : forall fuel x w H H',
+  OrdH H -> waker_lt w x -> x < length (cmds H) -> poll_next (S fuel) x w H = Some (PNPending, H') ->
+  c_evs (gcmd x H') = [] /\ c_eff (gcmd x H') = [] /\
+  (was_aborted x H' = false -> c_ready (gcmd x H') = [] /\ c_spawnq (gcmd x H') = []) /\
+  Q x w H' /\ OrdH H'.
 Proof.
-  intros fuel x' w H H' O Wl L E.
-  destruct (specH_all (S fuel)) as (_ & Sn & _).
-  pose proof E as E0. unfold poll_next in E0.
-  destruct (Sn x' w (S x') w H PNPending H' (Nat.lt_succ_diag_r x') Wl O E0) as (S1 & Qx).
+  intros fuel x w H H' O Wl L E.
+  destruct (specH_all fuel) as (_ & _ & Ss & _).
   unfold poll_next in E. cbn [funs step_funs rpoll_next] in E. unfold poll_next_body in E.
-  set (x := S x') in *. set (H0' := ucmd x (set_atomic (Some w)) H) in *.
+  set (H0' := ucmd x (set_atomic (Some w)) H) in *.
   assert (L0 : x < length (cmds H0')) by (unfold H0', ucmd; simpl; pose proof (length_updd cmd0 x (set_atomic (Some w)) (cmds H)); lia).
+  assert (O0 : OrdH H0') by (apply (St_ord (S x) (WExec 0) _ _ (St_set_atomic (S x) (WExec 0) x (Some w) H ltac:(lia) Wl) O)).
+  assert (Q0 : Q x w H0') by (left; unfold H0'; rewrite gcmd_ucmd_same; destruct (gcmd x H); reflexivity).
   destruct (rsettle (funs fuel) x H0') as [H1|] eqn:E1; [|discriminate].
-  assert (L1 : x < length (cmds H1)) by (pose proof (pm_cmds _ _ (perm_settle fuel _ _ _ E1)); lia).
+  pose proof (Ss x w x H0' H1 (le_n x) O0 E1) as (O1f & Q1f & Len1).
+  assert (L1 : x < length (cmds H1)) by lia.
   destruct (c_evs (gcmd x H1)) as [|e rest] eqn:EV1; [|discriminate].
   destruct (c_eff (gcmd x H1)) as [|e rest] eqn:EF1; [|discriminate].
   destruct (rsettle (funs fuel) x H1) as [H2|] eqn:E2; [|discriminate].
+  pose proof (Ss x w x H1 H2 (le_n x) (O1f O0) E2) as (O2f & Q2f & Len2).
   assert (Qu : was_aborted x H1 = false -> c_ready (gcmd x H1) = [] /\ c_spawnq (gcmd x H1) = []).
   { intros A1. apply (settle_quiescent fuel x H0' H1); [|exact E1].
     eapply was_aborted_false_back; [exact L0 | apply (proj1 (proj2 (proj2 (frame_meta fuel))) _ _ _ E1) | exact A1]. }
   destruct (second_settle_no_output fuel x H1 H2 L1 EV1 EF1 Qu E2) as (EV2 & EF2 & Qu2).
   rewrite EF2, EV2 in E.
   assert (X : H2 = H') by (destruct (c_len (gcmd x H2) =? 0); [discriminate | congruence]). subst H'.
-  split; [exact EV2 | split; [exact EF2 | split; [|split; [apply Qx; reflexivity | apply (St_ord _ _ _ _ S1 O)]]]].
+  split; [exact EV2 | split; [exact EF2 | split; [|split; [apply Q2f, Q1f, Q0 | apply O2f, O1f, O0]]]].
   intros A2. apply Qu2. eapply was_aborted_false_back; [exact L1 | apply (proj1 (proj2 (proj2 (frame_meta fuel))) _ _ _ E2) | exact A2].
 Qed.
+Theorem poll_next_pending_quiet_and_subscribed : forall fuel x' w H H',
+  OrdH H -> waker_lt w (S x') -> S x' < length (cmds H) -> poll_next (S fuel) (S x') w H = Some (PNPending, H') ->
+  c_evs (gcmd (S x') H') = [] /\ c_eff (gcmd (S x') H') = [] /\
+  (was_aborted (S x') H' = false -> c_ready (gcmd (S x') H') = [] /\ c_spawnq (gcmd (S x') H') = []) /\
+  Q (S x') w H' /\ OrdH H'.
+Proof. intros fuel x'. apply poll_next_pending_quiet_and_subscribed_any. Qed.
 
 (* ---------- a wake always has enough fuel ---------- *)
 (* Wakes start with fuel [wfuel w] = S (the waker's command id).  The cell of a command only ever holds a waker of a
